@@ -28,14 +28,19 @@ CONF = {
                 wall={"quick": 150, "thorough": 2400}),
     "C18": dict(module="xsim.eng_c18", stub=True, kind="shards", vary_hashseed=True,
                 runs={"quick": 6000, "thorough": 150000},
-                wall={"quick": 170, "thorough": 1800}),
-    "C06": dict(module="xsim.eng_c06", stub=False, kind="shards", shadow_hashseed=0,
+                wall={"quick": 260, "thorough": 1800}),
+    # engine A: the optimised dask graph depends on the string-hash seed, so shard i runs under PYTHONHASHSEED=i and
+    # the determinism shadow re-executes part of one shard under that shard's own seed (other shard layout)
+    "C06": dict(module="xsim.eng_c06", stub=False, kind="shards", shadow_hashseed=0, vary_hashseed=True,
+                shadow_same_seed=True,
                 runs={"quick": 3200, "thorough": 30000},
                 wall={"quick": 240, "thorough": 2700}),
-    "C07": dict(module="xsim.eng_c07", stub=True, kind="shards", shadow_hashseed=0,
+    "C07": dict(module="xsim.eng_c07", stub=True, kind="shards", shadow_hashseed=0, vary_hashseed=True,
+                shadow_same_seed=True,
                 runs={"quick": 16000, "thorough": 400000},
                 wall={"quick": 150, "thorough": 1500}),
-    "C08": dict(module="xsim.eng_c08", stub=True, kind="shards", shadow_hashseed=0,
+    "C08": dict(module="xsim.eng_c08", stub=True, kind="shards", shadow_hashseed=0, vary_hashseed=True,
+                shadow_same_seed=True,
                 runs={"quick": 16000, "thorough": 400000},
                 wall={"quick": 150, "thorough": 1500}),
     "C12": dict(module="xsim.eng_c12", stub=False, kind="hash",
@@ -256,10 +261,17 @@ def run_shard_check(prop, tier, seed, nshards=None, runs=None, wall=None,
     def shard_hashseed(i):
         return i if conf.get("vary_hashseed") else 0
 
+    SH = 5 % nshards  # the shard the determinism shadow repeats when it has to run under the same hash seed
+
     def argv_for(i):
         if i < nshards:
             return ["worker", prop, "--tier", tier, "--seed", str(seed), "--shard", str(i),
                     "--nshards", str(nshards), "--runs", str(runs), "--deadline", str(wall * 0.8)]
+        if conf.get("shadow_same_seed"):
+            # every other run of shard SH, in a process of its own, under that shard's hash seed
+            return ["worker", prop, "--tier", tier, "--seed", str(seed), "--shard", str(SH),
+                    "--nshards", str(2 * nshards), "--runs", str(min(runs, 2 * nshards * nshadow)),
+                    "--deadline", str(wall * 0.8)]
         return ["worker", prop, "--tier", tier, "--seed", str(seed), "--shard", "0",
                 "--nshards", "1", "--runs", str(nshadow), "--deadline", str(wall * 0.8)]
 
@@ -271,6 +283,8 @@ def run_shard_check(prop, tier, seed, nshards=None, runs=None, wall=None,
         # replay file records the seed
         if i < nshards:
             return procs.worker_env(hashseed=shard_hashseed(i), with_stub=conf["stub"])
+        if conf.get("shadow_same_seed"):
+            return procs.worker_env(hashseed=shard_hashseed(SH), with_stub=conf["stub"])
         return procs.worker_env(hashseed=conf.get("shadow_hashseed", 101 if conf.get("vary_hashseed") else 1),
                                 with_stub=conf["stub"])
 
@@ -284,7 +298,8 @@ def run_shard_check(prop, tier, seed, nshards=None, runs=None, wall=None,
             if state["runs"][i][0] != d:
                 problems.append(
                     f"determinism self-check failed: run {i} digest {state['runs'][i][0]} "
-                    f"(16 shards, PYTHONHASHSEED=0) != {d} (1 shard, PYTHONHASHSEED=1)")
+                    f"({nshards} shards) != {d} (shadow worker: other shard layout, "
+                    f"{'same' if conf.get('shadow_same_seed') else 'other'} hash seed)")
     for hmsg in state["harness"]:
         problems.append(f"harness exception in run {hmsg.get('i')}: {hmsg.get('tb')}")
 
@@ -348,6 +363,7 @@ def run_shard_check(prop, tier, seed, nshards=None, runs=None, wall=None,
         "known_findings_hit": {fp: n for fp, (e, n) in known_hits.items()},
         "harness_problems": problems[:5],
         "workers": nshards,
+        "worker_hash_seeds": sorted({shard_hashseed(i) for i in range(nshards)}),
     }
     if write_evidence:
         core.write_evidence(prop, tier, seed, cov, mod.ASSUMPTIONS, clock.elapsed(), len(reported))
